@@ -59,11 +59,12 @@ def _run_isolated(mod, prog, res):
 RESTRUCTURED = 16
 # Rules whose verdict is read off ONE expression and the declared kind of the
 # names in it (a numeric option tested for truthiness, a tuple looked up in a
-# container of lists, a reduction of a per-unit tensor without an axis): the
+# container of lists, a reduction of a per-unit tensor without an axis, an
+# iteration whose element is never read): the
 # statement shape of the surrounding function plays no part, so they are not
 # subject to the restructure gate.  On the stored refactoring corpus the gate
 # never had to suppress one of them.
-EXPRESSION_LOCAL_RULES = frozenset(['N0', 'T4', 'X1'])
+EXPRESSION_LOCAL_RULES = frozenset(['N0', 'T4', 'X1', 'X9'])
 
 
 def _restructure_gate(prog, res):
